@@ -63,6 +63,9 @@ pub fn gen_rope_case(rng: &mut Rng) -> RopeCase {
     })
     .collect();
   let n_ops = 2 + rng.usize_below(14);
+  // swarm mode "many pieces" (6% of the programs): the program starts from a
+  // rope of 31 .. 260 pieces (count next to a power of two)
+  let many_pieces = !cfg!(miri) && rng.chance(60);
   let pick_ids = |rng: &mut Rng| -> Vec<usize> {
     let k = rng.usize_below(5);
     (0..k).map(|_| rng.usize_below(n_arena)).collect()
@@ -72,6 +75,7 @@ pub fn gen_rope_case(rng: &mut Rng) -> RopeCase {
       0 => 0,
       1 => usize::MAX,
       2 => 1000,
+      3 if many_pieces => rng.usize_below(700),
       _ => rng.usize_below(24),
     }
   };
@@ -83,6 +87,10 @@ pub fn gen_rope_case(rng: &mut Rng) -> RopeCase {
     }
   };
   let mut ops = vec![];
+  if many_pieces {
+    let n = crate::gen::magic_count(rng, 8);
+    ops.push(RopeOp::FromIter((0..n).map(|_| rng.usize_below(n_arena)).collect()));
+  }
   for _ in 0..n_ops {
     let op = match rng.below(100) {
       0..=4 => RopeOp::New,
@@ -98,8 +106,9 @@ pub fn gen_rope_case(rng: &mut Rng) -> RopeCase {
         keep: rng.chance(400),
       },
       70..=79 => RopeOp::Unchecked {
-        lo_pct: rng.below(101) as u8,
-        hi_pct: rng.below(101) as u8,
+        // the ends of the rope get extra weight
+        lo_pct: if rng.chance(150) { 0 } else { rng.below(101) as u8 },
+        hi_pct: if rng.chance(200) { 100 } else { rng.below(101) as u8 },
         keep: rng.chance(400),
       },
       80..=83 => RopeOp::GetByte(pos(rng)),
